@@ -22,6 +22,10 @@ import traceback
 sys.path.insert(0, os.path.dirname(os.path.abspath(__file__)))
 import m1_driver as D  # noqa: E402  (Gate, InstrumentedInput, task, failure classes)
 
+import os as _os_cov, sys as _sys_cov
+if _os_cov.environ.get("VERIF_COV_OUT"):
+    _sys_cov.path.insert(0, _os_cov.path.dirname(_os_cov.path.abspath(__file__)))
+    import cov_hook  # noqa: F401  (diagnostic line coverage, off by default)
 import joblib.parallel as JP  # noqa: E402
 from joblib import Parallel  # noqa: E402
 from joblib.parallel import ParallelBackendBase  # noqa: E402
